@@ -35,6 +35,12 @@ def gen_extra(ctx, thorough):
                     steps += req(sid) + [finish(sid, n=2)]; sid += 2
                 steps += [lf(sid - 2)] + req(sid) + [finish(sid, n=1)]
                 out.append({'tag': 'pool-history-' + name, 'cfg': {'maxConc': 8, 'maxBody': 5}, 'steps': steps})
+    # frames the peer may still send on an id the server has refused (over the concurrency limit): its own RST_STREAM, body
+    # DATA, trailers, WINDOW_UPDATE, PRIORITY - the id is not idle, whatever else it is
+    for fr in ({"op": "rst", "sid": 5, "code": 8}, {"op": "data", "sid": 5, "n": 3, "es": True, "pad": -1}, {"op": "wu", "sid": 5, "inc": 5},
+               {"op": "prio", "sid": 5, "prio": {"dep": 0, "excl": False, "weight": 3}}, {"op": "hdr", "sid": 5, "fields": [["x-t", "1"]], "es": True, "pad": -1}):
+        steps = req(1) + req(3) + [{"op": "hdr", "sid": 5, "fields": hdrs(5, "POST"), "es": False, "pad": -1}, dict(fr), finish(1, n=1), finish(3, n=1)] + req(7) + [finish(7, n=1)]
+        out.append({'tag': 'refused-then-frame', 'cfg': {'maxConc': 2}, 'steps': steps})
     out += gen_frame_shapes(ctx, thorough, 200)
     return out
 
